@@ -54,19 +54,23 @@ Section Rename.
     destruct (search_post_exists _ _ HPo Eo) as (op & oc & Hop1 & Hop2 & Hoc & Holk).
     rewrite Hop1, Hoc.
     destruct (search_post_parent _ _ HPn) as (np & Hnp1 & Hnp2). rewrite Hnp1.
-    destruct (negb (perm_on (f_heap s) op OpenWrite (v_user v))); [stay|].
-    destruct (negb (Nat.eqb oc op) && sticky_refuses (f_heap s) op oc (v_user v)); [stay|].
-    destruct (negb (Nat.eqb np op) && negb (perm_on (f_heap s) np OpenWrite (v_user v))); [stay|].
     assert (Hoc_lt : oc < length (f_heap s)) by (apply (search_child_valid _ ro oc IH HPo Hoc)).
     rewrite Vos. change (sepc Linux) with SLASH.
+    (* the tests made before the permission checks, then the permission checks *)
+    Ltac perms s v op oc np :=
+      destruct (negb (perm_on (f_heap s) op OpenWrite (v_user v))); [stay|];
+      destruct (negb (Nat.eqb oc op) && sticky_refuses (f_heap s) op oc (v_user v)); [stay|];
+      destruct (negb (Nat.eqb np op) && negb (perm_on (f_heap s) np OpenWrite (v_user v))); [stay|].
     destruct (get (f_heap s) oc) as [[ch m|dt k id m|lk m]|] eqn:Ego.
     4:{ exfalso. apply get_some in Hoc_lt as (x & Hx). congruence. }
     1:{ (* a directory is moved *)
-      match goal with |- context [if ?b then (if ?b2 then (s, ROk) else _) else _] =>
+      match goal with |- context [if ?b then Some (if ?b2 then ROk else _) else None] =>
         destruct b; [destruct b2; stay|] end.
+      perms s v op oc np.
       destruct (Nat.eqb_spec oc op) as [->|Hne]; cbn [orb]; [stay|].
       destruct (is_prefix (pi_path (sr_pi ro) ++ [SLASH]) (pi_path (sr_pi rn))) eqn:Epre; [stay|].
       destruct (is_not_exist (sr_err rn)) eqn:Ene; cbn [negb]; [|stay].
+      match goal with |- context [if ?b then (s, RFail EPermDenied) else _] => destruct b; [stay|] end.
       destruct Holk as [->|Holk]; [congruence|].
       destruct (search_post_not_exist _ _ HPn Ene) as (np' & Hn1 & _ & Hnc & Hnlk).
       assert (np' = np) by congruence. subst np'.
@@ -84,6 +88,7 @@ Section Rename.
            by (intros Hr; apply (reach_leaf _ _ _ Hleaf) in Hr; subst; unfold is_dir in Hnp2; congruence).
     all: destruct (str_eqb (pi_path (sr_pi ro)) (pi_path (sr_pi rn))
                   || match sr_child rn with Some nc => Nat.eqb nc oc | None => false end); [stay|].
+    all: perms s v op oc np.
     all: destruct (sr_child rn) as [nc|] eqn:Enc.
     2,4: (
       (* no entry under the new name *)
